@@ -87,6 +87,17 @@ func flat(h [][]string) []string {
 	return o
 }
 
+// what earlier scenarios' callers were handed (the call command with its status) is kept for a while and looked
+// at again after later messages have been received in the process: it must not change
+type dispHeldCall struct {
+	cmd   erpc.CallCmd
+	code  int32
+	msg   string
+	cause string
+}
+
+var dispHeld []dispHeldCall
+
 func runDisp(rec *Rec, sc *DispScenario, n int) {
 	c := sc.Cfg
 	rec.SetTrace(sc.ID, map[string]interface{}{
@@ -226,6 +237,7 @@ func runDisp(rec *Rec, sc *DispScenario, n int) {
 				resok = r.Tag == F(tag)
 			}
 			rec.Emit("CallDone", "code", st.Code(), "msg", st.Msg(), "cause", cause, "resok", resok)
+			dispHeld = append(dispHeld, dispHeldCall{cmd: cmd, code: st.Code(), msg: st.Msg(), cause: cause})
 		case <-time.After(3 * time.Second):
 			rec.Emit("CallHang")
 		}
@@ -289,6 +301,28 @@ func runDisp(rec *Rec, sc *DispScenario, n int) {
 	case <-cd:
 	case <-time.After(2 * time.Second):
 	}
+	// statuses handed out by the previous scenarios (this scenario's own traffic has been received since)
+	changed := 0
+	first := ""
+	if len(dispHeld) > 0 {
+		for _, h := range dispHeld[:len(dispHeld)-1] {
+			st := h.cmd.Status()
+			cz := ""
+			if e := st.Cause(); e != nil {
+				cz = e.Error()
+			}
+			if st.Code() != h.code || st.Msg() != h.msg || cz != h.cause {
+				changed++
+				if first == "" {
+					first = fmt.Sprintf("%d/%q/%q -> %d/%q/%q", h.code, h.msg, h.cause, st.Code(), st.Msg(), cz)
+				}
+			}
+		}
+		if len(dispHeld) > 4 {
+			dispHeld = dispHeld[len(dispHeld)-4:]
+		}
+	}
+	rec.Emit("HeldStatus", "changed", changed, "first", first)
 	rec.Emit("Quiesce", "ncall", ncall, "npush", npush, "nreply", nreply, "nother", nother, "srvdisc", sdisc,
 		"enters", atomic.LoadInt64(&app.Enters)-before)
 }
